@@ -443,7 +443,15 @@ def _compare_paths(live_paths, ref_paths, effects, outcome_norm, rn,
                     return {"verdict": "violation", "rows": rows,
                             "witness": w, "live_paths": len(live_paths),
                             "ref_paths": len(ref_paths)}
-                if unk and not (independent is not None
+                # (the rule's independence lemma is not used for an
+                # observation of a string the reference row observes too:
+                # overlapping slices of one string are not independent)
+                same_subject = any(
+                    SA.translatable(a) and any(
+                        SA.translatable(b) and SA._root_of(b)
+                        == SA._root_of(a) for b in rval)
+                    for a in unk)
+                if unk and not (independent is not None and not same_subject
                                 and all(independent(a) for a in unk)):
                     unknown.setdefault(tuple(sorted(A.fmt_atom(a)
                                                     for a in unk)), w)
